@@ -329,16 +329,66 @@ def case_strategy(tier):
     return gen()
 
 
+def run_atheris(spec, seed, acc):
+    """coverage-guided campaign (thorough tier): libFuzzer mutates the byte script of vpx/fuzz_c01.py (same grammar as the
+    Hypothesis generator, long runs reach the read-buffer boundaries); the oracle is inside the target; a crash input is
+    decoded again here and bucketed through check_case"""
+    import glob
+    import re
+    import shutil
+    import subprocess
+    import sys
+    try:
+        import atheris      # noqa: F401
+    except Exception:
+        acc.classes['atheris-not-installed'] += 1
+        acc.evaluations += 1
+        return
+    from .. import fuzz_c01
+    wd = tempfile.mkdtemp(prefix='vpx_c01_ath_')
+    try:
+        os.makedirs(os.path.join(wd, 'corpus'))
+        cmd = [sys.executable, '-W', 'ignore', '-m', 'vpx.fuzz_c01', '-runs=%d' % spec['runs'], '-seed=%d' % (seed * 100 + spec['i']),
+               '-max_len=200', '-timeout=60', '-artifact_prefix=' + wd + os.sep, os.path.join(wd, 'corpus')]
+        p = subprocess.run(cmd, capture_output=True, text=True, cwd=core.VERIF, timeout=3000)
+        m = re.search(r'Done (\d+) runs', p.stderr)
+        done = int(m.group(1)) if m else 0
+        acc.evaluations += done
+        acc.classes['atheris-runs'] += done
+        m = re.findall(r'cov: (\d+)', p.stderr)
+        if m:
+            acc.extra.setdefault('atheris_final_coverage', {})['shard-%d' % spec['i']] = int(m[-1])
+        arts = glob.glob(os.path.join(wd, 'crash-*')) + glob.glob(os.path.join(wd, 'timeout-*'))
+        for a in arts:
+            with open(a, 'rb') as fh:
+                case = fuzz_c01.decode(fh.read())
+            if case is None:
+                continue
+            out = check_case(case)
+            if not out.failures:
+                acc.classes['atheris-crash-not-reproduced-in-fresh-state'] += 1
+            acc.add(case, out)
+        if p.returncode != 0 and not arts:
+            acc.classes['atheris-abnormal-exit'] += 1
+    finally:
+        shutil.rmtree(wd, ignore_errors=True)
+
+
 def shards(tier, seed):
     n = 16 if tier == 'thorough' else 8
     per = 400 if tier == 'thorough' else 55
     s = [{'kind': 'hyp', 'shard': i, 'n': per} for i in range(n)]
     s.append({'kind': 'fixtures'})
+    if tier == 'thorough':
+        s += [{'kind': 'atheris', 'i': 300 + k, 'runs': 15000} for k in range(8)]
     return s
 
 
 def run_shard(spec, seed, tier):
     acc = core.Acc()
+    if spec['kind'] == 'atheris':
+        run_atheris(spec, seed, acc)
+        return acc
     if spec['kind'] == 'fixtures':
         from . import fixtures
         for name, text in fixtures.all_texts():
